@@ -138,6 +138,11 @@ func (rw *RuntimeErrorWrapper) Error() string {
 			if trModule != nil {
 				// a module without source text (built-in code, a library) has no lines to point at
 				isNativeModule = trModule.GetID() == r.NATIVE_CODE_MODULE_ID || trModule.GetProgram() == nil
+				// a call that failed before its first statement began (wrong number of
+				// arguments, not a method) has no line of its own: the fault is the caller's
+				if !isNativeModule && !tr.HasStarted() {
+					continue
+				}
 				errLines = append(errLines, fmtErrorLocationBodyLine(isNativeModule, trModule.GetName(), tr.GetCurrentLine()+1))
 				// get line text
 				if !isNativeModule {
